@@ -7,6 +7,11 @@
 //	post <now> <a1|a2|…>      -> <http code> <dump>       a = labels@start@end@payload@annNames ('-' = missing)
 //	get <now>                 -> <http code> <items> <dump>
 //	wait <now>                -> <dump>
+//	getc <now>                -> <http code> <dump>       GET /api/v2/alerts whose request context is already cancelled (the client went away)
+//	update <now> <rt>         -> ok|blocked <dump>        a configuration reload reaches the API: API.Update (same routes, resolve_timeout rt)
+//
+// Once an `update` did not return the API is unusable (every handler queues behind the waiting writer):
+// the remaining post / get / getc / update ops of the case answer `wedged` without calling it.
 //
 // dump  = provider content: labels@start@end@updated@timeout@payload;… (sorted)
 // items = GET result: labels@start@end@updated@state@inhibitedBy@receivers;… (sorted)
@@ -89,6 +94,44 @@ type world struct {
 	ih     *inhibit.Inhibitor
 	api    *apiv2.API
 	known  map[string]string // fingerprint string -> encoded labels
+	wedged bool              // an API.Update did not return
+}
+
+// API.Update is run by a goroutine OUTSIDE the synctest bubble and bounded in real time: a goroutine
+// waiting for a sync.RWMutex is not durably blocked, so inside the bubble neither synctest.Wait nor a
+// virtual timer would ever get past it, and a goroutine stuck for ever could not be stopped before
+// the bubble ends.  Update only takes api.mtx and stores the configuration, the route tree
+// (dispatch.NewRoute: pure) and the callback; channels used across the bubble boundary are package
+// level (created outside any bubble).
+type updJob struct {
+	api *apiv2.API
+	cfg *config.Config
+	fn  func(context.Context, model.LabelSet)
+}
+
+var (
+	updc     = make(chan updJob)
+	updReply = make(chan string)
+	// generous: on the unchanged tree Update returns within microseconds, the bound is only ever
+	// waited out when the API is wedged
+	updBound = 10 * time.Second
+	wedges   = 0
+)
+
+func updWorker() {
+	for j := range updc {
+		done := make(chan struct{})
+		go func() {
+			j.api.Update(j.cfg, j.fn)
+			close(done)
+		}()
+		select {
+		case <-done:
+			updReply <- "ok"
+		case <-time.After(updBound):
+			updReply <- "blocked"
+		}
+	}
 }
 
 func (w *world) sleepTo(off int64) {
@@ -151,7 +194,32 @@ type gettable struct {
 
 func (w *world) exec(line string) string {
 	t := strings.Fields(line)
+	if w.wedged && t[0] != "wait" {
+		return "wedged"
+	}
 	switch t[0] {
+	case "getc":
+		w.sleepTo(hx.Atoi64(t[1]))
+		ctx, cancel := context.WithCancel(context.Background())
+		cancel()
+		req := httptest.NewRequest("GET", "/api/v2/alerts", nil).WithContext(ctx)
+		rec := httptest.NewRecorder()
+		w.api.Handler.ServeHTTP(rec, req)
+		synctest.Wait()
+		return fmt.Sprintf("%d %s", rec.Code, w.dump())
+	case "update":
+		w.sleepTo(hx.Atoi64(t[1]))
+		cfg, err := config.Load(fmt.Sprintf(cfgYAML, model.Duration(hx.Atoi64(t[2])).String()))
+		if err != nil {
+			panic(err)
+		}
+		updc <- updJob{w.api, cfg, func(ctx context.Context, ls model.LabelSet) { w.ih.Mutes(ctx, ls) }}
+		res := <-updReply
+		if res != "ok" {
+			w.wedged = true
+			wedges++
+		}
+		return fmt.Sprintf("%s %s", res, w.dump())
 	case "post":
 		w.sleepTo(hx.Atoi64(t[1]))
 		var body []map[string]any
@@ -406,6 +474,17 @@ func runCase(t *testing.T, tr *hx.Trace, id int, r *rand.Rand, script []string) 
 			default:
 				do(fmt.Sprintf("wait %d", now))
 			}
+			// a client that went away before the listing started; a configuration reload (now or some ops later)
+			if r.IntN(8) == 0 {
+				do(fmt.Sprintf("getc %d", now))
+				if r.IntN(2) == 0 {
+					rt = hx.Pick(r, []int64{minute, 5 * minute, 2 * minute})
+					do(fmt.Sprintf("update %d %d", now, rt))
+				}
+			} else if r.IntN(8) == 0 {
+				rt = hx.Pick(r, []int64{minute, 5 * minute, 2 * minute})
+				do(fmt.Sprintf("update %d %d", now, rt))
+			}
 		}
 	})
 }
@@ -413,6 +492,7 @@ func runCase(t *testing.T, tr *hx.Trace, id int, r *rand.Rand, script []string) 
 func TestEngine(t *testing.T) {
 	tr := hx.Open()
 	defer tr.Close()
+	go updWorker()
 	if s := hx.Script(); s != nil {
 		var cur []string
 		n := 0
@@ -435,6 +515,9 @@ func TestEngine(t *testing.T) {
 	}
 	r := hx.Rand(13)
 	for id := range hx.Cases(4000, 80000) {
+		if wedges >= 2 {
+			break // every further case that reloads after an aborted read would wait out the bound
+		}
 		runCase(t, tr, id, r, nil)
 	}
 }
